@@ -36,9 +36,9 @@ RULE = ('generated PKI (real EC P-256 keys, RSA-1024 at a random level incl. the
         'constructor cases; 2 instances x 3 packets in all 6 orders with default and with explicit storage; a case = '
         '(template, depth, key types, deviation, link) resp. (order, storage mode); non-trivial = every case (each '
         'runs the real validator on a real signed packet); distinct = hash(description, packet wire)')
-BOUND = 'quick: 8 PKIs per shard-set x all deviations x all links (~1500 validations); thorough: 160 PKIs'
+BOUND = 'quick: 48 PKIs (+6 independence suites) x all deviations x all links (~5000 validations); thorough: 960 PKIs'
 
-N_PKI = {'quick': 16, 'thorough': 320}
+N_PKI = {'quick': 48, 'thorough': 960}
 
 
 # ------------------------------------------------------------------------------------------------- virtual time
@@ -735,7 +735,6 @@ def replay(rec: dict) -> tuple[bool, str]:
     if inp['part'] == 'single':
         out, _, _ = run_single(inp['idx'], inp['seed'], desc_filter=inp['desc'])
     else:
-        out, _, _ = run_single(inp['idx'], inp['seed'], desc_filter='#none#')
         depth, variant, rsa_level = pki_params(inp['idx'])
         p = Pki(random.Random(inp['seed'] * 1000003 + inp['idx']), depth, variant, 'p%d' % inp['idx'], rsa_level=rsa_level)
         out = []
